@@ -79,6 +79,7 @@ package quicswarm
 //@     set allowed = res0
 //@   before call allowFunc:
 //@     assert [certid] ghost(got)
+//@     assert [fulladdr] ifaceval(arg0) == addr
 //@   before call (*Swarm).putSession:
 //@     assert [whitelisted] ghost(got) && ghost(allowed) && arg1.ID == addr.ID
 //@   fnspec allowFunc:
